@@ -11,12 +11,20 @@ func TestPlanSize(t *testing.T) {
 		t.Skip("set C04_PLAN=1")
 	}
 	trees, cases := 0, 0
-	byLinks := map[int]int{}
+	byLinks := map[string]int{}
 	forEachTree(theBound(), func(i int, cs []Case) {
 		trees++
 		cases += len(cs)
 		if len(cs) > 0 {
-			byLinks[len(cs[0].Links)] += len(cs)
+			k := cs[0].Backend
+			for _, l := range cs[0].Links {
+				if l.loop() {
+					k += "+" + l.Kind
+				} else {
+					k += "+plain"
+				}
+			}
+			byLinks[k] += len(cs)
 		}
 	})
 	t.Logf("trees=%d cases=%d byLinks=%v", trees, cases, byLinks)
